@@ -566,7 +566,8 @@ class ExtendedIndexedOperand(Operand):
         if "S" in self.right:
             raw_post_byte |= 0x60
 
-        if self.left == "" or (type(self.left) != str and self.left.is_numeric() and self.left.int == 0):
+        no_offset = type(self.left) != str and self.left.is_numeric() and self.left.int == 0 and "PCR" not in self.right
+        if self.left == "" or no_offset:
             if "-" in self.right or "+" in self.right:
                 if self.right == "X+" or self.right == "Y+" or self.right == "U+" or self.right == "S+":
                     raise OperandTypeError("[{}] not allowed as an extended indirect value".format(self.right))
@@ -611,9 +612,11 @@ class ExtendedIndexedOperand(Operand):
                     post_byte_choices = [0x9C, 0x9D]
                     max_size += 2
                 else:
-                    size += 2 if self.left.is_extended() else 1
+                    hex_digits = 2 if additional.is_8_bit() and not additional.is_extended() else 4
+                    additional = fit_value(additional, hex_digits)
+                    size += hex_digits // 2
                     max_size = size
-                    raw_post_byte |= 0x9D if self.left.is_extended() else 0x9C
+                    raw_post_byte |= 0x9D if hex_digits == 4 else 0x9C
             else:
                 if additional.is_negative():
                     if additional.is_8_bit():
@@ -695,7 +698,8 @@ class IndexedOperand(Operand):
         if "S" in self.right:
             raw_post_byte |= 0x60
 
-        if self.left == "" or (type(self.left) != str and self.left.is_numeric() and self.left.int == 0):
+        no_offset = type(self.left) != str and self.left.is_numeric() and self.left.int == 0 and "PCR" not in self.right
+        if self.left == "" or no_offset:
             raw_post_byte |= 0x80
             if "-" in self.right or "+" in self.right:
                 if "+" in self.right:
@@ -740,9 +744,11 @@ class IndexedOperand(Operand):
                     post_byte_choices = [0x8C, 0x8D]
                     max_size += 2
                 else:
-                    size += 2 if self.left.is_extended() else 1
+                    hex_digits = 2 if additional.is_8_bit() and not additional.is_extended() else 4
+                    additional = fit_value(additional, hex_digits)
+                    size += hex_digits // 2
                     max_size = size
-                    raw_post_byte |= 0x8D if self.left.is_extended() else 0x8C
+                    raw_post_byte |= 0x8D if hex_digits == 4 else 0x8C
             else:
                 if additional.is_negative():
                     if additional.is_4_bit():
